@@ -130,6 +130,15 @@ class Lib:
             lo, hi = to_int(lo), to_int(hi)
             n = z3.simplify(hi - lo)
             return st.alloc(ArrData((n,) + d.shape[1:], lambda i, *r: d.sel(i + lo, *r), d.kind))
+        if isinstance(sl, ast.Tuple) and d.ndim == 1 and len(sl.elts) == 2 and unparse(sl.elts[1]) in ("np.newaxis", "None", "numpy.newaxis"):
+            # a[idx, np.newaxis]: the 1-D selection as a column
+            first = sl.elts[0]
+            sub = self.array_index(E, ref, d, first, st) if not (isinstance(first, ast.Slice) and first.lower is None and first.upper is None) else ref
+            sd = st.get(sub)
+            col = ArrData((sd.shape[0], 1), lambda i, j, sd=sd: sd.sel(i), sd.kind)
+            if hasattr(sd, "filter_of"):
+                col.filter_of = sd.filter_of
+            return st.alloc(col)
         if isinstance(sl, ast.Tuple):
             idx = [None if isinstance(x, ast.Slice) and x.lower is None and x.upper is None else x for x in sl.elts]
             if all(x is not None and not isinstance(x, ast.Slice) for x in idx):
@@ -199,6 +208,15 @@ class Lib:
         _used(E, "numpy boolean-mask filter a[m] (order preserving, length = count of True)")
         n = z3.simplify(to_int(d.shape[0]))
         memo = getattr(mask, "_filter_memo", None)
+        if memo is None and mask.ndim == 1:
+            # a mask value that is syntactically the same function of the index as an earlier one (e.g. `s > 0` evaluated twice) selects
+            # the same positions
+            probe = z3.simplify(z3bool(mask.sel(_PROBE)))
+            for pr, mm in getattr(self, "_filter_table", []):
+                if z3.eq(pr, probe) and z3.eq(mm[0], n):
+                    memo = mm
+                    mask._filter_memo = mm
+                    break
         if memo is not None and z3.eq(memo[0], n):
             # the positions selected by a mask are a function of the mask alone: two filters by the SAME mask value (array values are
             # immutable here, so the same object) share their position function
@@ -217,6 +235,10 @@ class Lib:
                       m == CNT(A, n)]                    # length of a[m] = number of True entries (definition of CNT)
             axioms += list(cnt_lemma_instances(A, n))
             mask._filter_memo = (n, m, pos, inv, axioms)
+            if mask.ndim == 1:
+                if not hasattr(self, "_filter_table"):
+                    self._filter_table = []
+                self._filter_table.append((z3.simplify(z3bool(mask.sel(_PROBE))), mask._filter_memo))
         if not any(h is axioms[2] for h in st.pc):
             st.assume(*axioms)
         res = ArrData((m,) + d.shape[1:], lambda i, *r: d.sel(pos(i), *r), d.kind)
@@ -250,6 +272,15 @@ class Lib:
                     mem, _ = membership(E, ia, st)
                     old = d.sel
                     return ArrData(d.shape, lambda i, j: _ite_val(z3.And(i == i0, mem(j)), v, old(i, j)), kind)
+            if d.ndim == 2 and len(ev) == 2 and ev[1] is None and isinstance(ev[0], Ref):
+                ma = as_array(ev[0], st)
+                if ma is not None and ma.kind == "b" and ma.ndim == 1:
+                    # A[mask, :] = row | scalar: every selected row becomes the given row
+                    old = d.sel
+                    if va is not None and va.ndim == 1:
+                        return ArrData(d.shape, lambda i, j: _ite_val(z3bool(ma.sel(i)), va.sel(j), old(i, j)), kind)
+                    if va is None and is_scalar(v):
+                        return ArrData(d.shape, lambda i, j: _ite_val(z3bool(ma.sel(i)), v, old(i, j)), _join_kind(kind, v))
             if d.ndim == 2 and len(ev) == 2 and ev[0] is None and ev[1] is not None:
                 ia = as_array(ev[1], st)
                 if ia is not None and ia.kind == "i" and not isinstance(v, Ref):
@@ -317,6 +348,12 @@ class Lib:
                 _, m_, pos_, inv_, _ = ia._filter_memo
                 st.assume(m_ == to_int(va.shape[0]))                               # numpy raises on a length mismatch
                 return ArrData(d.shape, lambda i: _ite_val(z3bool(ia.sel(i)), va.sel(inv_(i)), old(i)), kind)
+            if va is not None and va.ndim == 2 and ia.ndim == 1 and d.ndim == 2:
+                # A[mask] = W (rows): row t of W lands at the t-th True position of mask
+                self.filter(E, ArrData(ia.shape, lambda i: i, "i"), ia, st)
+                _, m_, pos_, inv_, _ = ia._filter_memo
+                st.assume(m_ == to_int(va.shape[0]))
+                return ArrData(d.shape, lambda i, j: _ite_val(z3bool(ia.sel(i)), va.sel(inv_(i), j), old(i, j)), kind)
             if va is not None and va.ndim >= 1:
                 raise Unsupported("mask store of array")
             return ArrData(d.shape, lambda *i: _ite_val(z3bool(ia.sel(*i[:ia.ndim])), v, old(*i)), _join_kind(kind, v))
@@ -418,6 +455,8 @@ class Lib:
             f = self.function("np." + name)
             if f is not None:
                 return f(E, st, [ref] + args, kwargs, node)
+        if name == "reshape" and d.ndim == 1 and len(args) == 1 and (args[0] == -1 or args[0] == (-1,)):
+            return st.alloc(ArrData(d.shape, d.sel, d.kind))
         if name == "reshape" and d.ndim == 1 and len(args) == 2 and args[0] == -1 and args[1] == 1:
             return st.alloc(ArrData((d.shape[0], 1), lambda i, j: d.sel(i), d.kind))
         if name in ("ravel", "flatten") and d.ndim == 1:
@@ -609,6 +648,7 @@ def forall_trig(vs, body, *cands):
     return z3.ForAll(vs, body, patterns=pats)
 
 
+_PROBE = z3.Int("mask_probe_index")
 POS_INF = z3.Real("+inf")     # infinite floats are opaque real constants: stored, copied and compared for identity only; any
 NEG_INF = z3.Real("-inf")     # arithmetic on them is outside the model (documented assumption 'machine floats as reals')
 
@@ -1028,6 +1068,25 @@ def register_builtins(L):
         _used(E, "np.sum over a boolean or 0/1 array = cnt (axioms: 0<=cnt<=n, cnt=0 <=> none, cnt=n <=> all, scatter-of-ones lemma)")
         v = args[0]
         a = as_array(v, st) if isinstance(v, Ref) else None
+        ax = kw.get("axis", args[1] if len(args) > 1 else None)
+        if a is not None and a.ndim == 2 and a.kind == "f" and ax in (1, -1) and set(kw) <= {"axis"} and not unparse(node.func).endswith("nansum"):
+            # row sums of a real matrix: rs(i) with the consequences of 'sum of non-negative terms' (lemmas.rowsum, proved by induction):
+            # all entries of row i non-NaN and >= 0  ->  rs(i) >= every entry, rs(i) >= 0, rs(i) = 0 iff all entries are 0;  NaN iff some entry is
+            _used(E, "np.sum(axis=1) of a non-negative matrix (row sum bounds every entry; 0 iff all entries are 0)")
+            rs = fresh_fn("rowsum", I, R)
+            i, j = z3.Ints("rs_i rs_j")
+            n, k = to_int(a.shape[0]), to_int(a.shape[1])
+            en, ev = to_real(a.sel(i, j))
+            rj = z3.And(0 <= j, j < k)
+            nonneg = z3.ForAll([j], z3.Implies(rj, z3.And(z3.Not(en), ev >= 0)))
+            rsnan = fresh_fn("rowsum_nan", I, B)          # NaN iff some entry of the row is NaN
+            st.assume(z3.ForAll([i], z3.Implies(z3.And(0 <= i, i < n, nonneg), z3.And(
+                z3.Not(rsnan(i)), rs(i) >= 0, z3.ForAll([j], z3.Implies(rj, ev <= rs(i))), (rs(i) == 0) == z3.ForAll([j], z3.Implies(rj, ev == 0))))))
+            st.assume(z3.ForAll([i, j], z3.Implies(z3.And(0 <= i, i < n, rj, en), rsnan(i))))
+            st.assume(z3.ForAll([i], z3.Implies(z3.And(0 <= i, i < n, z3.ForAll([j], z3.Implies(rj, z3.Not(en)))), z3.Not(rsnan(i)))))
+            res = ArrData((a.shape[0],), lambda t: mk_fv(rsnan(t), rs(t)), "f")
+            res.rowsum_of = (a, rs)
+            return st.alloc(res)
         if a is None or "axis" in kw or len(args) > 1:
             return Opaque("sum") if a is None else E.unknown_call("np.sum(axis)", [], {}, st, node)
         if a.kind == "f" and a.ndim == 1 and getattr(a, "scatter", None) is None and not getattr(a, "zero_one", False):
